@@ -46,7 +46,9 @@ def find_shape(fn):
             if not (n.endswith("as std::iter::Iterator>::next") or (t.get("callee") or "") == "std::iter::Iterator::next"):
                 continue
             tys = " ".join(t.get("arg_tys", []) + t.get("gargs", []))
-            if "Split" not in tys or t["dest"]["p"]:
+            # the plain `split(..)` iterator only: behind a filter / map / rev adaptor the loop body no longer sees every segment as it is
+            import re as _re
+            if not _re.search(r"(^|[ &]|mut )std::str::Split<", tys) or _re.search(r"std::iter::(Filter|Map|FilterMap|Rev|Skip|Take|Peekable|Enumerate|Chain|Zip)", tys) or t["dest"]["p"]:
                 continue
             o = t["dest"]["l"]
             # the switch on the discriminant of the Option
@@ -236,11 +238,11 @@ class SegEval:
         cfg, du, sh = self.cfg, self.du, self.sh
         outs = []
         seen = set()
-        stack = [(sh.some_edge[1], 0, None, None)]
+        stack = [(sh.some_edge[1], 0, None, None, False)]
         steps = 0
         while stack:
-            b, delta, assume, ret = stack.pop()
-            key = (b, delta, assume, ret)
+            b, delta, assume, ret, fuzzy = stack.pop()
+            key = (b, delta, assume, ret, fuzzy)
             if key in seen:
                 continue
             seen.add(key)
@@ -274,13 +276,13 @@ class SegEval:
             t = blk["term"]
             k = t["k"]
             if k == "return":
-                outs.append(("return", ret, assume, line))
+                outs.append(("return", ret, assume, line, fuzzy))
                 continue
             if k == "call":
                 n = callee_name(t) or ""
                 tgt = t.get("target")
                 if b == sh.next_block:
-                    outs.append(("next", delta, assume, line))
+                    outs.append(("next", delta, assume, line, fuzzy))
                     continue
                 if self.kind == "stack" and t["args"]:
                     a0 = du.val_operand(t["args"][0])
@@ -304,7 +306,7 @@ class SegEval:
                         continue
                     delta, assume = r
                 if isinstance(tgt, int):
-                    stack.append((tgt, delta, assume, ret))
+                    stack.append((tgt, delta, assume, ret, fuzzy))
                 continue
             if k == "switch":
                 v = du.val_operand(t["discr"])
@@ -315,10 +317,10 @@ class SegEval:
                         for val, tb in t["targets"] + [[None, t["otherwise"]]]:
                             if val == 1 or (val is None and not any(x[0] == 1 for x in t["targets"])):
                                 if assume != "zero":
-                                    stack.append((tb, delta - 1, "pos", ret))
+                                    stack.append((tb, delta - 1, "pos", ret, fuzzy))
                             elif val == 0:
                                 if assume != "pos":
-                                    stack.append((tb, delta, "zero", ret))
+                                    stack.append((tb, delta, "zero", ret, fuzzy))
                         continue
                 # `stack.pop().is_none()` / `.is_some()`
                 vv, neg = v, False
@@ -333,9 +335,9 @@ class SegEval:
                             if tb is None:
                                 continue
                             if is_none and assume != "pos":
-                                stack.append((tb, delta, "zero", ret))
+                                stack.append((tb, delta, "zero", ret, fuzzy))
                             if not is_none and assume != "zero":
-                                stack.append((tb, delta - 1, "pos", ret))
+                                stack.append((tb, delta - 1, "pos", ret, fuzzy))
                         continue
                 # `match depth.checked_sub(1)`: None = the depth was 0, Some = it was at least 1
                 if v[0] == "discr" and self.kind == "counter" and delta == 0:
@@ -346,22 +348,24 @@ class SegEval:
                                 continue
                             if val == 1 or (val is None and not any(x[0] == 1 for x in t["targets"])):
                                 if assume != "zero":
-                                    stack.append((tb, delta, "pos", ret))
+                                    stack.append((tb, delta, "pos", ret, fuzzy))
                             elif val == 0:
                                 if assume != "pos":
-                                    stack.append((tb, delta, "zero", ret))
+                                    stack.append((tb, delta, "zero", ret, fuzzy))
                         continue
                 c = self.cond(v, cls, delta) if t.get("discr_ty") == "bool" else None
                 f_t = [tb for val, tb in t["targets"] if val == 0]
                 false_b = f_t[0] if f_t else None
                 true_b = t["otherwise"]
                 if c is None or t.get("discr_ty") != "bool":
+                    # a test that is not decided by the segment class or the depth (the Result of a helper, another property of the
+                    # text): both ways are followed; what is found behind it is a possible, not a certain, outcome for this class
                     for s2 in {tb for _, tb in t["targets"]} | {t["otherwise"]}:
                         if not cfg.blocks[s2].get("cleanup") and cfg.blocks[s2]["term"]["k"] != "unreachable":
-                            stack.append((s2, delta, assume, ret))
+                            stack.append((s2, delta, assume, ret, True))
                     continue
                 if c[0] == "seg":
-                    stack.append((true_b if c[1] else false_b, delta, assume, ret))
+                    stack.append((true_b if c[1] else false_b, delta, assume, ret, fuzzy))
                     continue
                 _, when_true, when_false = c
                 for tb, est in ((true_b, when_true), (false_b, when_false)):
@@ -369,18 +373,18 @@ class SegEval:
                         continue
                     if est is not None and assume is not None and est != assume:
                         continue       # contradicts what this path has already established
-                    stack.append((tb, delta, est if est is not None else assume, ret))
+                    stack.append((tb, delta, est if est is not None else assume, ret, fuzzy))
                 continue
             if k in ("goto", "drop", "assert", "falseedge", "falseunwind"):
                 tgt = t.get("target")
                 if isinstance(tgt, int):
-                    stack.append((tgt, delta, assume, ret))
+                    stack.append((tgt, delta, assume, ret, fuzzy))
                 continue
             if k == "unreachable":
                 continue
             for s2 in cfg.succ.get(b, []):
                 if not cfg.blocks[s2].get("cleanup"):
-                    stack.append((s2, delta, assume, ret))
+                    stack.append((s2, delta, assume, ret, fuzzy))
         return outs
 
 
@@ -396,6 +400,8 @@ def precision_verdicts(fn):
     for cls in CLASSES:
         want = {"..": -1, ".": 0, "": 0, "<name>": 1}[cls]
         for o in ev.run(cls):
+            if len(o) > 4 and o[4]:
+                continue        # behind an undecided test: not a certain outcome for this class
             if o[0] == "next":
                 ok = o[1] == want
                 res.append((cls, ok, "next segment with depth%+d%s" % (o[1], "" if ok else " (the real depth changes by %+d: paths that stay inside would be refused later, or the check is unsound)" % want), o[3]))
@@ -436,7 +442,7 @@ def verdicts(fn):
             res.append((cls, False, "no path through the loop body was found", fn.span["line"]))
         for o in outs:
             if o[0] == "unknown":
-                res.append((cls, False, o[1], o[2]))
+                res.append((cls, False, "UNDECIDED: " + o[1], o[2]))
             elif o[0] == "return":
                 ok = o[1] is True
                 res.append((cls, ok, "returns %s from inside the walk%s" % (o[1], "" if ok else ": the segments that follow are never looked at"), o[3]))
